@@ -11,7 +11,7 @@ package c02
 //     idref, ...) retargeted to every member of the package - itself, its own
 //     relationship part, the package root - and to ids used elsewhere;
 //   - every distinct element (by name, first occurrence per member): deleted,
-//     repeated up to 500 times (at most 600 KB), nested 3000 deep inside copies of its own start tag.
+//     repeated up to 100 times (at most 600 KB), nested 3000 deep inside copies of its own start tag.
 
 import (
 	"fmt"
@@ -130,6 +130,9 @@ func generatedPackages(thorough bool) []pkgDoc {
 		}
 		return sc
 	})
+	// whatever was drawn: one more slide with a table, footer placeholders in a group and a numbered sub-list
+	dk.Slides = append(dk.Slides, pptxw.Slide{Title: "Table slide", Body: []pptxw.Para{{Text: "first", Bullet: "auto"}, {Text: "second", Level: 1, Bullet: "auto"}},
+		Tables: []pptxw.Table{{Rows: [][]string{{"h1", "h2", "h3"}, {"a", "b", "c"}, {"d", "e", "f"}}}}, Footer: "footer text", SlideNum: "7", GroupFooters: true})
 	if ms, err := dk.Members(); err == nil {
 		var mm []member
 		for _, m := range ms {
@@ -306,13 +309,15 @@ func pkgFaults(d pkgDoc, stride int, emit emitFn) {
 			}
 			el := string(m.data[l[0]:end])
 			s0, e0 := l[0], end
+			// (element-level faults are few: never thinned out by the stride)
+			add := func(fault string, build func() []byte) { emit("file", d.ext, fault+" ["+d.name+"]", build) }
 			add(fmt.Sprintf("%s: element <%s> deleted", m.name, name), func() []byte { return with(i, splice(m.data, s0, e0-s0, "")) })
 			// at most ~600 KB of additional XML: a case runs 24 operations on the file, and a reader that needs a
 			// few hundred milliseconds per megabyte must not be mistaken for one that hangs
-			// and at most 500 copies: a copied element that refers to other parts (a slide list entry, a spine
-			// item) makes the reader load those parts once per copy - linear, but 24 operations times 2000 slides
+			// and at most 100 copies: a copied element that refers to other parts (a slide list entry, a spine
+			// item) makes the reader load those parts once per copy - linear, but 24 operations times 500 - 2000 slides with their notes
 			// exceeded the ceiling without anything hanging
-			if times := min(500, 600000/len(el)); times >= 20 {
+			if times := min(100, 600000/len(el)); times >= 20 {
 				add(fmt.Sprintf("%s: element <%s> repeated %d times", m.name, name, times), func() []byte {
 					return with(i, splice(m.data, s0, 0, strings.Repeat(el, times)))
 				})
